@@ -210,6 +210,16 @@ func (c *chain) name(n uint64, h common.Hash) int {
 	return c.nameLocked(n, h)
 }
 
+// canonVersion is the version of the canonical block n (-2 above the tip)
+func (c *chain) canonVersion(n uint64) int {
+	c.mu.Lock()
+	defer c.mu.Unlock()
+	if n > c.tip() {
+		return -2
+	}
+	return c.blocks[n].v
+}
+
 func (c *chain) nameLocked(n uint64, h common.Hash) int {
 	if x, ok := c.names[h]; ok && uint64(x[0]) == n {
 		return x[1]
